@@ -7,7 +7,19 @@ package peer
 
 import (
 	myraft "github.com/feichai0017/NoKV/raft"
+	"github.com/feichai0017/NoKV/raftstore/engine"
 )
+
+// VerifDurableHardState returns the hard state a restart of this peer would recover (WAL-backed
+// storage only; ok=false otherwise).
+func (p *Peer) VerifDurableHardState() (hs myraft.HardState, ok bool, err error) {
+	ws, isWAL := p.storage.(*engine.WALStorage)
+	if !isWAL {
+		return hs, false, nil
+	}
+	hs, err = ws.VerifDurableHardState()
+	return hs, true, err
+}
 
 // VerifLog returns the peer's persisted raft log (entries the storage still holds) and
 // the persisted hard state.
